@@ -427,6 +427,39 @@ def finish(prop, tier, seed, results, listing_errors, t0, quiet, repo, canaries=
         for c in canary_results:
             if c["status"] == "missed":
                 errors.append(f"must-fail canary {c['seed']} (a seeded change that breaks {prop}) was NOT detected: the check has become too weak")
+    # harnesses the deductive engine could not decide (construct outside the modelled subset, time-out): bounded native search for
+    # an input on which a clause of that harness fails on the real code.  A hit is a violation with a native witness; no hit leaves
+    # the harness undecided (never "held").
+    und_names = sorted({h for h, l, w in undecided})
+    if und_names and not os.environ.get("PYVC_NO_CROSSCHECK"):
+        reqs = []
+        for r in results:
+            if r["name"] in und_names and not r.get("opts_native_only"):
+                reqs.append({"module": r["module"], "name": r["name"], "count": 4000, "seed": seed, "budget_s": 15})
+        try:
+            p = subprocess.run([NATIVE_PY, os.path.join(VERIF, "helper", "native.py"), "fuzz", "--repo", repo],
+                               input="\n".join(json.dumps(q) for q in reqs) + "\n", capture_output=True, text=True,
+                               env=dict(os.environ, PYVC_REPO=repo), timeout=len(reqs) * 25 + 120)
+            outs = [json.loads(l) for l in p.stdout.splitlines() if l.strip().startswith("{")]
+        except Exception:  # noqa
+            outs = []
+        for q, o in zip(reqs, outs):
+            hits = dict(o.get("failed") or {})
+            if o.get("escaped"):
+                hits.setdefault("no-escape", o["escaped"].get("args"))
+            for label, args in hits.items():
+                ident = f"{q['name']}/{label}"
+                kf = match_known(known, prop, ident, None)
+                if kf is not None:
+                    known_lines.append(f"KNOWN-FINDING: property={prop} {kf['what']} [{ident}]")
+                    continue
+                rp = os.path.join("out", "replay", prop, slug(ident) + ".json")
+                doc = {"property": prop, "module": q["module"], "obligation": q["name"], "clause": label, "inputs_repr": args,
+                       "found_by": "bounded native search (the deductive engine could not decide this harness on the current code)",
+                       "fuzz": {"seed": q["seed"], "count": q["count"]}, "confirmed_on_real_code": True,
+                       "reproduce": f"{NATIVE_PY} helper/native.py replay {rp}"}
+                json.dump(doc, open(os.path.join(VERIF, rp), "w"), indent=1, default=str)
+                violations.append((ident, rp, True))
     n_obl = len(obligations)
     n_dis = sum(1 for o in obligations if o["status"] == "discharged")
     wall = time.time() - t0
